@@ -31,13 +31,19 @@ KnownTests ==
       axds   |-> {"valid_range_test"} ]
 Known(e) == e.module \in DOMAIN KnownTests /\ e.test \in KnownTests[e.module]
 
+\* already-parsed objects (Config's docstring: "list of Call objects"; extract_calls: objects with a 'calls'
+\* attribute): every call bare, one ContextConfig per context, bare calls and ContextConfigs mixed, a Config
+ObjectCarriers == {"call_list", "ctx_objs", "mixed_list", "config_obj"}
 Layouts  == {"contexts", "streams", "bare_streams", "bare_modules"}
 Carriers == {"dict", "odict", "yaml_str", "json_str", "yaml_io", "json_io", "yaml_path_str", "yaml_path",
-             "json_path_str", "json_path", "xr_global", "xr_vars", "nc_path"}
+             "json_path_str", "json_path", "xr_global", "xr_vars", "nc_path"} \cup ObjectCarriers
 
 HasWindow(c) == c.win # <<NA, NA>>
 HasRegion(c) == c.region # "none"
 NStreams(c)  == Len(c.streams)
+
+HasKnown(cfg) == \E k \in 1..Len(cfg) : \E s \in 1..NStreams(cfg[k]) :
+                     \E j \in 1..Len(cfg[k].streams[s].entries) : Known(cfg[k].streams[s].entries[j])
 
 \* which layouts / carriers can express a configuration at all
 Expressible(cfg, layout, carrier) ==
@@ -48,6 +54,9 @@ Expressible(cfg, layout, carrier) ==
          [] layout = "bare_modules" -> Len(cfg) = 1 /\ ~HasWindow(cfg[1]) /\ ~HasRegion(cfg[1]) /\ NStreams(cfg[1]) = 1
     \* per-variable attributes can only spell a bare stream mapping
     /\ carrier = "xr_vars" => layout = "bare_streams"
+    \* objects are built from the list of contexts and must hold at least one call to be recognised as such
+    /\ carrier \in ObjectCarriers => layout = "contexts" /\ HasKnown(cfg)
+    /\ carrier = "mixed_list" => Len(cfg) >= 2
 
 \* "geom" (a Feature) and "feat" (a FeatureCollection with that one feature) denote the same polygon;
 \* "feat2" is a FeatureCollection with two features (both polygons belong to the region)
